@@ -1,9 +1,10 @@
-(* Proofs about Model/DictAssign.v: dict displays are repaired key by key. *)
+(* Proofs about Model/DictAssign.v: dict displays are repaired key by key; the values are nested lists / tuples. *)
 From Coq Require Import List ZArith Bool Arith Lia Permutation.
 Import ListNotations.
-From V Require Import Model.SnapOps Model.SeqAssign Model.DictAssign Proofs.SeqAssignProofs.
+From V Require Import Model.Align Model.SnapOps Model.TreeAssign Model.DictAssign Proofs.UnmanagedProofs Proofs.TreeAssignProofs Proofs.TreeAssignConfluence.
 
-Definition pair_of (i : ditem) : Z * Z := (ditem_key i, ditem_val i).
+Definition pair_of (i : ditem) : Z * val := (fst i, eval_r (snd i)).
+Definition old_pair (e : entry) : Z * val := (e_key e, eval (e_val e)).
 
 Lemma has_old_in : forall k olds, has_old k olds = true <-> In k (map e_key olds).
 Proof.
@@ -33,14 +34,13 @@ Qed.
 
 (* ------------------------------------------------------------------------- (1) without fix the value never changes *)
 Lemma assign_entry_nofix : forall F e news, f_fix F = false ->
-  map pair_of (assign_entry F e news) = [(e_key e, l_val (e_leaf e))].
+  map pair_of (assign_entry F e news) = [old_pair e].
 Proof.
-  intros F e news HF. unfold assign_entry. destruct (lookup_new (e_key e) news) as [v|]; [|rewrite HF; reflexivity].
-  pose proof (assign_leaf_val_nofix F (e_leaf e) v HF) as H.
-  destruct (assign_leaf F (e_leaf e) v); unfold pair_of; simpl in *; rewrite H; reflexivity.
+  intros F e news HF. unfold assign_entry, old_pair. destruct (lookup_new (e_key e) news) as [v|]; [|rewrite HF; reflexivity].
+  unfold pair_of. cbn [map fst snd]. rewrite tree_nofix_value by exact HF. reflexivity.
 Qed.
 Theorem dict_nofix_value : forall F olds news, f_fix F = false ->
-  map pair_of (dict_result F olds news) = map (fun e => (e_key e, l_val (e_leaf e))) olds.
+  map pair_of (dict_result F olds news) = map old_pair olds.
 Proof.
   intros F olds news HF. unfold dict_result. generalize (inserts olds news [] 0) as ins. generalize 0%nat as i.
   induction olds as [|e r IH]; intros i ins; cbn [place map]; rewrite HF; [reflexivity|].
@@ -53,17 +53,17 @@ Proof.
   intros F ins news e olds. induction olds as [|o r IH]; intros i x He Hx; [destruct He|].
   cbn [place]. apply in_or_app. right. apply in_or_app. destruct He as [->|He]; [left; exact Hx|right; apply IH; assumption].
 Qed.
-Theorem dict_equal_entry_verbatim : forall F olds news e, f_update F = false -> In e olds ->
-  lookup_new (e_key e) news = Some (l_val (e_leaf e)) ->
-  In (DKeep (e_key e) (e_leaf e)) (dict_result F olds news).
+(* entries are matched by key: an entry whose value did not change keeps its source text (nested containers included), wherever
+   other entries are inserted or deleted *)
+Theorem dict_equal_entry_verbatim : forall F olds news e v, f_update F = false -> In e olds ->
+  lookup_new (e_key e) news = Some v -> elt_eqb (e_val e) v = true ->
+  exists r, In (e_key e, r) (dict_result F olds news) /\ verbatim r = Some (e_val e).
 Proof.
-  intros F olds news e HU He Hl. unfold dict_result. apply (in_place_entry F _ news e olds 0%nat _ He).
-  unfold assign_entry. rewrite Hl. rewrite (assign_leaf_keep_eq F (e_leaf e) _ HU); [left; reflexivity|].
-  apply leaf_eqb_eq. reflexivity.
+  intros F olds news e v HU He Hl Hv. exists (assign_tree F (e_val e) v). split; [|apply tree_equal_keeps_text; assumption].
+  unfold dict_result. apply (in_place_entry F _ news e olds 0%nat _ He). unfold assign_entry. rewrite Hl. left. reflexivity.
 Qed.
 
 (* ------------------------------------------------------------------------- (3) with fix the result is exactly the new value *)
-(* the inserted groups together are the entries with new keys, in the order of the new value *)
 Lemma inserts_concat : forall olds news pending pos,
   flat_map snd (inserts olds news pending pos) = rev pending ++ filter (fun kv => negb (has_old (fst kv) olds)) news.
 Proof.
@@ -74,10 +74,9 @@ Proof.
     + rewrite IH. cbn [rev]. rewrite <- app_assoc. reflexivity.
 Qed.
 
-(* every group is placed in front of an old entry or behind the last one *)
 Lemma inserts_pos_bound : forall olds news pending pos n,
   pos + length (filter (fun kv => has_old (fst kv) olds) news) <= n -> length olds <= n ->
-  Forall (fun g : nat * list (Z * Z) => fst g <= n) (inserts olds news pending pos).
+  Forall (fun g : nat * list (Z * val) => fst g <= n) (inserts olds news pending pos).
 Proof.
   intros olds news. induction news as [|[k v] r IH]; intros pending pos n H Hl; cbn [inserts].
   - destruct pending; constructor; [cbn [fst]; exact Hl|constructor].
@@ -86,7 +85,7 @@ Proof.
     + apply IH; assumption.
 Qed.
 
-Lemma matched_le_olds : forall olds (news : list (Z * Z)), NoDup (map fst news) ->
+Lemma matched_le_olds : forall olds (news : list (Z * val)), NoDup (map fst news) ->
   length (filter (fun kv => has_old (fst kv) olds) news) <= length olds.
 Proof.
   intros olds news Hnd.
@@ -98,21 +97,18 @@ Proof.
   intros k Hk. apply in_map_iff in Hk. destruct Hk as [[k' v'] [E Hin]]. apply filter_In in Hin. destruct Hin as [_ Hin]. cbn [fst] in *. subst. apply has_old_in. exact Hin.
 Qed.
 
-(* placing the groups: up to order, the result is the processed old entries plus all inserted entries *)
-Lemma inserted_at_perm : forall ins n, Forall (fun g : nat * list (Z * Z) => fst g <= n) ins ->
+Lemma inserted_at_perm : forall ins n, Forall (fun g : nat * list (Z * val) => fst g <= n) ins ->
   Permutation (flat_map (inserted_at ins) (seq 0 (S n))) (gens (flat_map snd ins)).
 Proof.
   intros ins n. induction ins as [|[p g] r IH]; intros H.
   - unfold inserted_at. cbn [flat_map]. induction (seq 0 (S n)) as [|x l IHl]; [constructor|exact IHl].
   - inversion H as [|? ? Hp Hr]; subst. cbn [fst] in Hp. cbn [flat_map snd]. unfold gens. rewrite map_app. fold (gens g). fold (gens (flat_map snd r)).
-    (* split every inserted_at into the part of the first group and the rest *)
     assert (E : forall i, inserted_at ((p, g) :: r) i = (if Nat.eqb p i then gens g else []) ++ inserted_at r i) by (intros; reflexivity).
     assert (P : forall l, Permutation (flat_map (inserted_at ((p, g) :: r)) l)
                                       (flat_map (fun i => if Nat.eqb p i then gens g else []) l ++ flat_map (inserted_at r) l)).
     { induction l as [|x l IHl]; [constructor|]. cbn [flat_map]. rewrite E. rewrite IHl. rewrite <- !app_assoc.
       apply Permutation_app_head. apply Permutation_app_swap_app. }
     rewrite P. apply Permutation_app; [|exact (IH Hr)].
-    (* exactly one index of 0..n equals p *)
     assert (G : forall a len, a <= p < a + len -> flat_map (fun i => if Nat.eqb p i then gens g else []) (seq a len) = gens g).
     { intros a len. revert a. induction len as [|len IHlen]; intros a Ha; [lia|]. cbn [seq flat_map].
       destruct (Nat.eqb p a) eqn:Epa.
@@ -130,13 +126,13 @@ Proof.
   intros F ins news olds. induction olds as [|e r IH]; intros i HF; cbn [place length seq flat_map]; rewrite HF.
   - rewrite app_nil_r. apply Permutation_refl.
   - rewrite (IH (S i) HF). cbn [seq flat_map]. rewrite <- !app_assoc.
-    (* a ++ b ++ c ++ d  ~  b ++ c ++ a ++ d *)
     rewrite Permutation_app_swap_app. apply Permutation_app_head. apply Permutation_app_swap_app.
 Qed.
 
+Definition new_entries (olds : list entry) (news : list (Z * val)) : list (Z * val) := filter (fun kv => negb (has_old (fst kv) olds)) news.
+
 Theorem dict_result_perm : forall F olds news, f_fix F = true -> NoDup (map fst news) ->
-  Permutation (dict_result F olds news)
-              (flat_map (fun e => assign_entry F e news) olds ++ gens (filter (fun kv => negb (has_old (fst kv) olds)) news)).
+  Permutation (dict_result F olds news) (flat_map (fun e => assign_entry F e news) olds ++ gens (new_entries olds news)).
 Proof.
   intros F olds news HF Hnd. unfold dict_result. rewrite (place_perm F _ news olds 0 HF). apply Permutation_app_head.
   rewrite inserted_at_perm.
@@ -144,29 +140,29 @@ Proof.
   - apply inserts_pos_bound; [cbn [Nat.add]; apply matched_le_olds; exact Hnd|lia].
 Qed.
 
-(* with fix: the entries of the result are exactly the entries of the new value *)
-Theorem dict_fix_value : forall F olds news k v, f_fix F = true -> NoDup (map e_key olds) -> NoDup (map fst news) ->
+Definition managed_entries (olds : list entry) : Prop := forall e, In e olds -> managed (e_val e) = true.
+
+(* with fix: the (key, value) pairs of the result are exactly the pairs of the new value *)
+Theorem dict_fix_value : forall F olds news k v, f_fix F = true -> managed_entries olds -> NoDup (map e_key olds) -> NoDup (map fst news) ->
   (In (k, v) (map pair_of (dict_result F olds news)) <-> In (k, v) news).
 Proof.
-  intros F olds news k v HF Hno Hnn.
+  intros F olds news k v HF Hm Hno Hnn.
   assert (P : Permutation (map pair_of (dict_result F olds news))
-                (map pair_of (flat_map (fun e => assign_entry F e news) olds) ++ filter (fun kv => negb (has_old (fst kv) olds)) news)).
+                (map pair_of (flat_map (fun e => assign_entry F e news) olds) ++ new_entries olds news)).
   { rewrite (dict_result_perm F olds news HF Hnn). rewrite map_app. apply Permutation_app_head.
-    unfold gens. rewrite map_map. cbn [pair_of ditem_key ditem_val]. rewrite map_ext with (g := fun x => x); [rewrite map_id; reflexivity|]. intros [a b]; reflexivity. }
+    unfold gens. rewrite map_map. unfold pair_of. cbn [fst snd eval_r]. rewrite map_ext with (g := fun x => x); [rewrite map_id; reflexivity|]. intros [a b]; reflexivity. }
   split; intros H.
   - apply (Permutation_in _ P) in H. apply in_app_or in H. destruct H as [H|H]; [|apply filter_In in H; tauto].
     apply in_map_iff in H. destruct H as [x [Ex Hx]]. apply in_flat_map in Hx. destruct Hx as [e [He Hx]].
     unfold assign_entry in Hx. destruct (lookup_new (e_key e) news) as [v0|] eqn:El; [|rewrite HF in Hx; destruct Hx].
-    pose proof (assign_leaf_val_fix F (e_leaf e) v0 HF) as Hv.
-    destruct (assign_leaf F (e_leaf e) v0); destruct Hx as [<-|[]]; unfold pair_of in Ex; simpl in Ex, Hv; injection Ex as <- <-; rewrite Hv; apply lookup_new_in; exact El.
+    destruct Hx as [<-|[]]. unfold pair_of in Ex. cbn [fst snd] in Ex. rewrite (tree_fix_value F (e_val e) v0 (Hm e He) HF) in Ex.
+    injection Ex as <- <-. apply lookup_new_in. exact El.
   - apply (Permutation_in _ (Permutation_sym P)). apply in_or_app.
     destruct (has_old k olds) eqn:Eo.
     + left. apply has_old_in in Eo. apply in_map_iff in Eo. destruct Eo as [e [Ek He]]. subst k.
       apply in_map_iff. pose proof (lookup_new_nodup _ _ _ Hnn H) as El.
-      pose proof (assign_leaf_val_fix F (e_leaf e) v HF) as Hv.
-      destruct (assign_leaf F (e_leaf e) v) as [l|v'] eqn:Ea.
-      * exists (DKeep (e_key e) l). split; [unfold pair_of; simpl; simpl in Hv; congruence|]. apply in_flat_map. exists e. split; [exact He|]. unfold assign_entry. rewrite El, Ea. left. reflexivity.
-      * exists (DGen (e_key e) v'). split; [unfold pair_of; simpl; simpl in Hv; congruence|]. apply in_flat_map. exists e. split; [exact He|]. unfold assign_entry. rewrite El, Ea. left. reflexivity.
+      exists (e_key e, assign_tree F (e_val e) v). split; [unfold pair_of; cbn [fst snd]; rewrite (tree_fix_value F (e_val e) v (Hm e He) HF); reflexivity|].
+      apply in_flat_map. exists e. split; [exact He|]. unfold assign_entry. rewrite El. left. reflexivity.
     + right. apply filter_In. split; [exact H|]. cbn [fst]. rewrite Eo. reflexivity.
 Qed.
 
@@ -177,41 +173,225 @@ Proof.
   - apply IH. intros y Hy. apply Hd. right. exact Hy.
 Qed.
 
+Lemma assign_entry_keys : forall F e news x, In x (map fst (assign_entry F e news)) -> x = e_key e.
+Proof.
+  intros F e news x. unfold assign_entry. destruct (lookup_new (e_key e) news); [|destruct (f_fix F)]; cbn; intros H; try tauto; destruct H as [<-|[]]; reflexivity.
+Qed.
+Lemma old_entries_nodup : forall F news olds, NoDup (map e_key olds) -> NoDup (map fst (flat_map (fun e => assign_entry F e news) olds)).
+Proof.
+  intros F news olds. induction olds as [|e r IH]; intros Hno; [constructor|]. cbn [map] in Hno. inversion Hno as [|? ? Hni Hno']; subst. cbn [flat_map]. rewrite map_app.
+  apply NoDup_app_intro; [| exact (IH Hno') |].
+  - unfold assign_entry. destruct (lookup_new (e_key e) news); [|destruct (f_fix F)]; cbn; repeat constructor; intros [].
+  - intros x Hx Hy. apply assign_entry_keys in Hx. subst x. apply Hni.
+    apply in_map_iff in Hy. destruct Hy as [it [Ek Hit]]. apply in_flat_map in Hit. destruct Hit as [e' [He' Hit]].
+    apply in_map_iff. exists e'. split; [|exact He'].
+    assert (Hk : In (fst it) (map fst (assign_entry F e' news))) by (apply in_map; exact Hit). apply assign_entry_keys in Hk. congruence.
+Qed.
+
 (* ... and no key occurs twice in the result *)
 Theorem dict_fix_nodup : forall F olds news, f_fix F = true -> NoDup (map e_key olds) -> NoDup (map fst news) ->
-  NoDup (map ditem_key (dict_result F olds news)).
+  NoDup (map fst (dict_result F olds news)).
 Proof.
   intros F olds news HF Hno Hnn.
-  apply (Permutation_NoDup (l := map ditem_key (flat_map (fun e => assign_entry F e news) olds ++ gens (filter (fun kv => negb (has_old (fst kv) olds)) news)))).
+  apply (Permutation_NoDup (l := map fst (flat_map (fun e => assign_entry F e news) olds ++ gens (new_entries olds news)))).
   - apply Permutation_map. apply Permutation_sym. apply dict_result_perm; assumption.
   - rewrite map_app. apply NoDup_app_intro.
-    + (* processed old entries: a sub-list of the old keys *)
-      clear Hnn. induction olds as [|e r IH]; [constructor|]. cbn [map] in Hno. inversion Hno as [|? ? Hni Hno']; subst. cbn [flat_map]. rewrite map_app.
-      apply NoDup_app_intro; [| |].
-      * unfold assign_entry. destruct (lookup_new (e_key e) news); [destruct (assign_leaf F (e_leaf e) z)|rewrite HF]; cbn; repeat constructor; intros [].
-      * exact (IH Hno').
-      * intros x Hx Hy. apply Hni.
-        assert (Ex : x = e_key e).
-        { unfold assign_entry in Hx. destruct (lookup_new (e_key e) news); [destruct (assign_leaf F (e_leaf e) z)|rewrite HF in Hx]; cbn in Hx; try tauto; destruct Hx as [<-|[]]; reflexivity. }
-        subst x. apply in_map_iff in Hy. destruct Hy as [it [Ek Hit]]. apply in_flat_map in Hit. destruct Hit as [e' [He' Hit]].
-        apply in_map_iff. exists e'. split; [|exact He'].
-        unfold assign_entry in Hit. destruct (lookup_new (e_key e') news); [destruct (assign_leaf F (e_leaf e') z)|rewrite HF in Hit]; cbn in Hit; try tauto; destruct Hit as [<-|[]]; cbn in Ek; congruence.
-    + unfold gens. rewrite map_map. cbn [ditem_key].
+    + apply old_entries_nodup. exact Hno.
+    + unfold gens, new_entries. rewrite map_map. cbn [fst].
       clear Hno. induction news as [|[k v] r IH]; [constructor|]. cbn [map fst] in Hnn. inversion Hnn as [|? ? Hni Hnn']; subst. cbn [filter fst].
       destruct (negb (has_old k olds)); [|exact (IH Hnn')]. cbn [map fst]. constructor; [|exact (IH Hnn')].
       intros Hin. apply Hni. apply in_map_iff in Hin. destruct Hin as [[k' v'] [E Hin]]. apply filter_In in Hin. apply in_map_iff. exists (k', v'). tauto.
     + intros x Hx Hy. apply in_map_iff in Hx. destruct Hx as [it [Ek Hit]]. apply in_flat_map in Hit. destruct Hit as [e [He Hit]].
-      assert (Ex : x = e_key e).
-      { unfold assign_entry in Hit. destruct (lookup_new (e_key e) news); [destruct (assign_leaf F (e_leaf e) z)|rewrite HF in Hit]; cbn in Hit; try tauto; destruct Hit as [<-|[]]; cbn in Ek; congruence. }
-      unfold gens in Hy. rewrite map_map in Hy. apply in_map_iff in Hy. destruct Hy as [[k' v'] [E Hin]]. apply filter_In in Hin. destruct Hin as [_ Hin]. cbn [fst ditem_key] in *. subst.
+      assert (Ex : x = e_key e) by (apply (assign_entry_keys F e news); rewrite <- Ek; apply in_map; exact Hit).
+      unfold gens, new_entries in Hy. rewrite map_map in Hy. apply in_map_iff in Hy. destruct Hy as [[k' v'] [E Hin]]. apply filter_In in Hin. destruct Hin as [_ Hin]. cbn [fst] in *. subst.
       apply negb_true_iff in Hin. assert (Ht : has_old (e_key e) olds = true) by (apply has_old_in; apply in_map; exact He). congruence.
+Qed.
+
+(* ------------------------------------------------------------------------- (4) C10: parts the user controls *)
+Definition dict_unms (olds : list entry) : list nat := flat_map (fun e => unms (e_val e)) olds.
+Definition dresult_unms (l : list ditem) : list nat := flat_map (fun i => unms_r (snd i)) l.
+
+Lemma flat_map_nil : forall (X Y : Type) (f : X -> list Y) l, (forall x, In x l -> f x = []) -> flat_map f l = [].
+Proof. intros X Y f l. induction l as [|x l IH]; intros H; [reflexivity|]. cbn [flat_map]. rewrite (H x (or_introl eq_refl)), IH; [reflexivity|]. intros y Hy. apply H. right. exact Hy. Qed.
+Lemma inserted_unms : forall ins i, dresult_unms (inserted_at ins i) = [].
+Proof.
+  intros ins i. unfold dresult_unms. apply flat_map_nil. intros x Hx. unfold inserted_at in Hx. apply in_flat_map in Hx. destruct Hx as [g [_ Hx]].
+  destruct (Nat.eqb (fst g) i); [|destruct Hx]. unfold gens in Hx. apply in_map_iff in Hx. destruct Hx as [kv [<- _]]. reflexivity.
+Qed.
+Lemma assign_entry_unms : forall F e news, subseq (dresult_unms (assign_entry F e news)) (unms (e_val e)).
+Proof.
+  intros F e news. unfold assign_entry, dresult_unms. destruct (lookup_new (e_key e) news) as [v|].
+  - cbn [flat_map snd]. rewrite app_nil_r. unfold assign_tree. apply assign_unmanaged_subsequence.
+  - destruct (f_fix F); cbn [flat_map snd unms_r]; [apply subseq_nil_l|rewrite app_nil_r; apply subseq_refl].
+Qed.
+(* whatever is approved and observed: no code is generated for a user-controlled part of any value, none is duplicated or reordered *)
+Theorem dict_unmanaged_subsequence : forall F olds news, subseq (dresult_unms (dict_result F olds news)) (dict_unms olds).
+Proof.
+  intros F olds news. unfold dict_result, dict_unms. generalize (inserts olds news [] 0) as ins. generalize 0%nat as i.
+  induction olds as [|e r IH]; intros i ins; cbn [place flat_map].
+  - destruct (f_fix F); [rewrite inserted_unms|]; apply ss_nil.
+  - unfold dresult_unms. rewrite !flat_map_app.
+    match goal with |- subseq (?a ++ _) _ => assert (E : a = []) by (destruct (f_fix F); [apply inserted_unms|reflexivity]); rewrite E end.
+    cbn [app]. apply subseq_app; [apply assign_entry_unms|apply IH].
+Qed.
+(* without fix nothing the user controls disappears *)
+Theorem dict_unmanaged_kept_nofix : forall F olds news, f_fix F = false -> dresult_unms (dict_result F olds news) = dict_unms olds.
+Proof.
+  intros F olds news HF. unfold dict_result, dict_unms. generalize (inserts olds news [] 0) as ins. generalize 0%nat as i.
+  induction olds as [|e r IH]; intros i ins; cbn [place flat_map]; rewrite HF; [reflexivity|].
+  cbn [app]. unfold dresult_unms. rewrite flat_map_app. f_equal; [|apply IH].
+  unfold assign_entry. destruct (lookup_new (e_key e) news) as [v|]; [|rewrite HF; cbn [flat_map snd unms_r]; apply app_nil_r].
+  cbn [flat_map snd]. rewrite app_nil_r. unfold assign_tree. apply assign_unmanaged_kept_nofix. exact HF.
+Qed.
+
+(* ------------------------------------------------------------------------- (5) C09: two runs compose *)
+Definition entries_of (l : list ditem) : list entry := map (fun i => {| e_key := fst i; e_val := to_tree (snd i) |}) l.
+
+Lemma has_old_ext : forall k a b, map e_key a = map e_key b -> has_old k a = has_old k b.
+Proof.
+  intros k a. induction a as [|x a IH]; intros [|y b] H; cbn [map] in H; try discriminate; [reflexivity|].
+  injection H as H1 H2. cbn [has_old]. rewrite H1, (IH b H2). reflexivity.
+Qed.
+Lemma inserts_ext : forall a b news pending pos, map e_key a = map e_key b -> inserts a news pending pos = inserts b news pending pos.
+Proof.
+  intros a b news. induction news as [|[k v] r IH]; intros pending pos H; cbn [inserts].
+  - assert (E : length a = length b) by (rewrite <- (map_length e_key a), H, map_length; reflexivity). rewrite E. reflexivity.
+  - rewrite (has_old_ext k a b H). destruct (has_old k b); [rewrite (IH [] (S pos) H)|rewrite (IH ((k, v) :: pending) pos H)]; reflexivity.
+Qed.
+
+(* a run without fix keeps every entry (keys and order) *)
+Lemma nofix_keys : forall F olds news, f_fix F = false -> map e_key (entries_of (dict_result F olds news)) = map e_key olds.
+Proof.
+  intros F olds news HF. pose proof (dict_nofix_value F olds news HF) as H.
+  unfold entries_of. rewrite map_map. cbn [e_key].
+  assert (E : map fst (map pair_of (dict_result F olds news)) = map fst (map old_pair olds)) by (rewrite H; reflexivity).
+  rewrite !map_map in E. cbn [pair_of old_pair fst] in E. exact E.
+Qed.
+
+Lemma canon_run_d : forall F v, to_tree (assign_tree F (canon_tree v) v) = canon_tree v.
+Proof.
+  intros F v. unfold assign_tree. rewrite assign_equal_run; [| lia | apply managed_canon_tree | unfold elt_eqb; rewrite eval_canon; apply val_eqb_refl].
+  destruct (f_update F); [|reflexivity]. rewrite canonize_canon_tree by apply managed_canon_tree. rewrite eval_canon. reflexivity.
+Qed.
+
+(* the entries a run leaves, processed by a second run that inserts nothing *)
+Lemma place_noins : forall F news olds i ins, (forall j, inserted_at ins j = []) ->
+  place F ins news i olds = flat_map (fun e => assign_entry F e news) olds.
+Proof.
+  intros F news olds. induction olds as [|e r IH]; intros i ins H; cbn [place flat_map]; rewrite H; [destruct (f_fix F); reflexivity|].
+  rewrite (IH (S i) ins H). destruct (f_fix F); reflexivity.
+Qed.
+Lemma inserts_none : forall olds news pos, (forall k v, In (k, v) news -> has_old k olds = true) -> inserts olds news [] pos = [].
+Proof.
+  intros olds news. induction news as [|[k v] r IH]; intros pos H; cbn [inserts]; [reflexivity|].
+  rewrite (H k v (or_introl eq_refl)). cbn [app]. apply IH. intros k' v' Hin. apply (H k' v'). right. exact Hin.
+Qed.
+
+Lemma entries_of_app : forall a b, entries_of (a ++ b) = entries_of a ++ entries_of b.
+Proof. intros. unfold entries_of. apply map_app. Qed.
+
+(* one entry over two runs *)
+Lemma per_entry : forall F1 F2 e news, managed (e_val e) = true ->
+  entries_of (flat_map (fun e' => assign_entry F2 e' news) (entries_of (assign_entry F1 e news))) = entries_of (assign_entry (funion F1 F2) e news).
+Proof.
+  intros F1 F2 e news Hm. unfold assign_entry at 2 3. destruct (lookup_new (e_key e) news) as [v|] eqn:El.
+  - cbn [entries_of map flat_map fst snd app]. unfold assign_entry. cbn [e_key e_val]. rewrite El. cbn [app map fst snd].
+    rewrite tree_two_runs_compose by exact Hm. reflexivity.
+  - change (f_fix (funion F1 F2)) with (f_fix F1 || f_fix F2). destruct (f_fix F1); cbn [orb]; [reflexivity|].
+    cbn [entries_of map flat_map fst snd app to_tree]. unfold assign_entry. cbn [e_key e_val]. rewrite El. destruct (f_fix F2); reflexivity.
+Qed.
+
+(* generated entries are left alone by any later run *)
+Lemma gens_stable_d : forall F news l, (forall k v, In (k, v) l -> lookup_new k news = Some v) ->
+  entries_of (flat_map (fun e' => assign_entry F e' news) (entries_of (gens l))) = entries_of (gens l).
+Proof.
+  intros F news l. induction l as [|[k v] l IH]; intros H; [reflexivity|].
+  cbn [gens map entries_of flat_map fst snd to_tree]. unfold assign_entry at 1. cbn [e_key e_val]. rewrite (H k v (or_introl eq_refl)).
+  cbn [app map fst snd]. rewrite canon_run_d. f_equal. apply IH. intros k' v' Hin. apply H. right. exact Hin.
+Qed.
+Lemma inserts_members : forall olds news0 news pending pos, (forall kv, In kv news -> In kv news0) -> (forall kv, In kv pending -> In kv news0) ->
+  Forall (fun g : nat * list (Z * val) => forall kv, In kv (snd g) -> In kv news0) (inserts olds news pending pos).
+Proof.
+  intros olds news0 news. induction news as [|[k v] r IH]; intros pending pos Hn Hp; cbn [inserts].
+  - destruct pending as [|x l]; constructor; [|constructor]. cbn [snd]. intros kv Hin. apply in_rev in Hin. apply Hp. exact Hin.
+  - assert (Hr : forall kv, In kv r -> In kv news0) by (intros kv Hkv; apply Hn; right; exact Hkv).
+    destruct (has_old k olds).
+    + apply Forall_app. split; [|apply IH; [exact Hr|intros kv []]].
+      destruct pending as [|x l]; constructor; [|constructor]. cbn [snd]. intros kv Hin. apply in_rev in Hin. apply Hp. exact Hin.
+    + apply IH; [exact Hr|]. intros kv [<-|Hin]; [apply Hn; left; reflexivity|apply Hp; exact Hin].
+Qed.
+Lemma inserted_stable : forall F news ins j, NoDup (map fst news) ->
+  Forall (fun g : nat * list (Z * val) => forall kv, In kv (snd g) -> In kv news) ins ->
+  entries_of (flat_map (fun e' => assign_entry F e' news) (entries_of (inserted_at ins j))) = entries_of (inserted_at ins j).
+Proof.
+  intros F news ins j Hnn H. unfold inserted_at. induction H as [|g r Hg Hr IH]; [reflexivity|].
+  cbn [flat_map]. rewrite entries_of_app, flat_map_app, entries_of_app, IH. f_equal.
+  destruct (Nat.eqb (fst g) j); [|reflexivity]. apply gens_stable_d. intros k v Hin. apply lookup_new_nodup; [exact Hnn|apply Hg; exact Hin].
+Qed.
+
+(* the first run repairs: the second run finds every key and inserts nothing *)
+Lemma place_compose_fix : forall F1 F2 news ins, f_fix F1 = true -> NoDup (map fst news) ->
+  Forall (fun g : nat * list (Z * val) => forall kv, In kv (snd g) -> In kv news) ins ->
+  forall olds i, (forall e, In e olds -> managed (e_val e) = true) ->
+  entries_of (flat_map (fun e' => assign_entry F2 e' news) (entries_of (place F1 ins news i olds))) = entries_of (place (funion F1 F2) ins news i olds).
+Proof.
+  intros F1 F2 news ins HF1 Hnn Hins.
+  assert (HFu : f_fix (funion F1 F2) = true) by (change (f_fix (funion F1 F2)) with (f_fix F1 || f_fix F2); rewrite HF1; reflexivity).
+  induction olds as [|e r IH]; intros i Hm; cbn [place]; rewrite HF1, HFu.
+  - apply inserted_stable; assumption.
+  - rewrite !entries_of_app, !flat_map_app, !entries_of_app.
+    rewrite inserted_stable by assumption. rewrite per_entry by (apply Hm; left; reflexivity).
+    rewrite IH by (intros e' He'; apply Hm; right; exact He'). reflexivity.
+Qed.
+
+(* the first run does not repair: it keeps every entry where it is *)
+Lemma assign_entry_nofix_single : forall F e news, f_fix F = false -> exists r, assign_entry F e news = [(e_key e, r)].
+Proof.
+  intros F e news HF. unfold assign_entry. destruct (lookup_new (e_key e) news); [|rewrite HF]; eexists; reflexivity.
+Qed.
+Lemma place_compose_nofix : forall F1 F2 news ins, f_fix F1 = false ->
+  forall olds i, (forall e, In e olds -> managed (e_val e) = true) ->
+  entries_of (place F2 ins news i (entries_of (flat_map (fun e => assign_entry F1 e news) olds))) = entries_of (place (funion F1 F2) ins news i olds).
+Proof.
+  intros F1 F2 news ins HF1.
+  assert (HFu : f_fix (funion F1 F2) = f_fix F2) by (change (f_fix (funion F1 F2)) with (f_fix F1 || f_fix F2); rewrite HF1; reflexivity).
+  induction olds as [|e r IH]; intros i Hm; cbn [flat_map].
+  - cbn [entries_of map place]. rewrite HFu. reflexivity.
+  - destruct (assign_entry_nofix_single F1 e news HF1) as [x Ex]. pose proof (per_entry F1 F2 e news (Hm e (or_introl eq_refl))) as Hp.
+    rewrite Ex in Hp |- *. cbn [app entries_of map fst snd] in Hp |- *. cbn [flat_map] in Hp. rewrite app_nil_r in Hp.
+    cbn [place]. fold (entries_of (flat_map (fun e0 => assign_entry F1 e0 news) r)). rewrite HFu.
+    rewrite !entries_of_app. rewrite Hp. rewrite IH by (intros e' He'; apply Hm; right; exact He'). reflexivity.
+Qed.
+
+(* C09 for dict displays: a run with F1 followed by a run with F2 on the display the first run wrote leaves the same entries - same
+   order, same texts - as one run with F1 and F2 together, for all flag sets *)
+Theorem dict_two_runs_compose : forall F1 F2 olds news, managed_entries olds -> NoDup (map e_key olds) -> NoDup (map fst news) ->
+  entries_of (dict_result F2 (entries_of (dict_result F1 olds news)) news) = entries_of (dict_result (funion F1 F2) olds news).
+Proof.
+  intros F1 F2 olds news Hm Hno Hnn.
+  destruct (f_fix F1) eqn:HF1.
+  - set (o1 := entries_of (dict_result F1 olds news)).
+    assert (Hall : forall k v, In (k, v) news -> has_old k o1 = true).
+    { intros k v Hin. apply has_old_in. unfold o1, entries_of. rewrite map_map. cbn [e_key].
+      pose proof (proj2 (dict_fix_value F1 olds news k v HF1 Hm Hno Hnn) Hin) as H. apply in_map_iff in H. destruct H as [it [E Hit]].
+      apply in_map_iff. exists it. split; [|exact Hit]. unfold pair_of in E. congruence. }
+    unfold dict_result at 1. rewrite (inserts_none o1 news 0 Hall). rewrite place_noins by (intros j; reflexivity).
+    unfold o1, dict_result. apply place_compose_fix; [exact HF1|exact Hnn| |exact Hm].
+    apply inserts_members; [intros kv H; exact H|intros kv []].
+  - assert (E1 : dict_result F1 olds news = flat_map (fun e => assign_entry F1 e news) olds).
+    { unfold dict_result. generalize (inserts olds news [] 0) as ins. generalize 0%nat as i.
+      induction olds as [|e r IH]; intros i ins; cbn [place flat_map]; rewrite HF1; [reflexivity|]. cbn [app]. f_equal. apply IH.
+      - intros e' He'. apply Hm. right. exact He'.
+      - cbn [map] in Hno. inversion Hno. assumption. }
+    unfold dict_result at 1. rewrite (inserts_ext _ olds news [] 0%nat (nofix_keys F1 olds news HF1)).
+    rewrite E1. unfold dict_result. apply place_compose_nofix; [exact HF1|exact Hm].
 Qed.
 
 (* non-vacuity *)
 Example dict_example :
   let F := {| f_create := false; f_fix := true; f_trim := false; f_update := false |} in
-  let olds := [ {| e_key := 1; e_leaf := {| l_val := 5; l_canon := false |} |}; {| e_key := 2; e_leaf := {| l_val := 6; l_canon := true |} |};
-                {| e_key := 3; e_leaf := {| l_val := 7; l_canon := false |} |} ] in
-  dict_result F olds [(9, 0); (3, 7); (1, 4); (8, 8)]%Z
-  = [DGen 9 0; DGen 1 4; DKeep 3 {| l_val := 7; l_canon := false |}; DGen 8 8]%Z.
+  let olds := [ {| e_key := 1; e_val := TLeaf 5 false |}; {| e_key := 2; e_val := TLeaf 6 true |};
+                {| e_key := 3; e_val := TSeq KList [TLeaf 7 false; TLeaf 8 true] |} ] in
+  dict_result F olds [(9, VAtom 0); (3, VSeq KList [VAtom 7; VAtom 8; VAtom 9]); (1, VAtom 4); (8, VAtom 8)]%Z
+  = [(9, RGen (VAtom 0)); (1, RGen (VAtom 4)); (3, RSeq KList [RKeep (TLeaf 7 false); RKeep (TLeaf 8 true); RGen (VAtom 9)]); (8, RGen (VAtom 8))]%Z.
 Proof. vm_compute. reflexivity. Qed.
